@@ -92,6 +92,17 @@ fn cl_short(code: u16) -> String {
 }
 
 pub fn generate(rng: &mut Rng, tier: Tier, emit: &mut dyn FnMut(String)) {
+    // the attempt target asks the node's pool for a connection before EVERY attempt: after the connection that carried
+    // an attempt was closed, a RetrySameTarget attempt must go out on another connection of the node
+    for i in 0..(if tier == Tier::Quick { 6 } else { 30 }) {
+        let pool = 2 + rng.below(2);
+        let n = 1 + rng.below(2);
+        let scripts: Vec<&str> = (0..3).map(|_| *rng.pick(if pool == 3 { &["cl.ok", "cl.cl.ok", "ok"][..] } else { &["cl.ok", "ok"][..] })).collect();
+        emit(format!(
+            "e2e retry n={} sh=0 pol=def idem={} kind=sameconn cl=q via=session pool={} seed={} scripts={}",
+            n, i % 2, pool, rng.below(1 << 32), scripts.join("/")
+        ));
+    }
     // (they all land in the runner's last chunk: keep the family small; the `wire` cases of c06.rs run the same code,
     //  spread over all chunks and compared with the model as well)
     let n_cases = if tier == Tier::Quick { 60 } else { 200 };
